@@ -3,11 +3,17 @@
 spec["exprs"] = [ [file, function, anchor-regex, gallina-name, [params], {c-subexpr: identifier}], ... ]
     The anchor regex must match exactly once in the (preprocessed) body of the function; its group 1 is a C integer
     expression, translated expression-by-expression into a Z-valued Gallina function.
-spec["skeletons"] = [ [file, function, [watched call names], [watched condition substrings]], ... ]
+spec["skeletons"] = [ [file, function, [watched call names], [watched condition substrings], [statement regexes]?], ... ]
     -> Definition <function>_skel : list string  =  the watched calls (with their argument text, blanks removed) and
     the `if (...)` conditions mentioning one of the watched substrings, plus `else`, in textual order, taken from
     the preprocessed body of the function in the *current* sources.  The model's proofs contain the expected
-    skeleton literally, so a dropped / reordered / re-guarded write breaks a proof.
+    skeleton literally, so a dropped / reordered / re-guarded write breaks a proof.  `for (...)` headers mentioning
+    a watched substring are recorded like conditions; the optional fifth element lists regexes of statements that
+    are recorded too (text with blanks removed), e.g. the index resets of a block-list walk.
+spec["assign_census"] = [ [[files], lvalue-regex, gallina-name], ... ]
+    -> Definition <name> : list string = "function: statement" for EVERY assignment / increment of the lvalue in
+    the listed files (comments stripped, not preprocessed), in textual order.  A theorem that depends on "these are
+    all the places that change X" states the list literally.
 """
 import re
 
@@ -46,10 +52,14 @@ def emit(repo, spec, H):
         out.append("Definition %s %s : Z := %s." % (name, " ".join("(%s : Z)" % p for p in params), term))
     if spec.get("skeletons"):
         out.append("Local Open Scope string_scope.")
-    for f, fn, calls, conds in spec.get("skeletons", []):
+    for ent in spec.get("skeletons", []):
+        f, fn, calls, conds = ent[0], ent[1], ent[2], ent[3]
+        stmts = ent[4] if len(ent) > 4 else []
         body = H.func_body(H.src(repo, f), fn)
         toks = []
-        pat = re.compile(r"\b(%s)\s*\(|\bif\s*\(|\belse\b" % "|".join(re.escape(c) for c in calls))
+        alts = [r"\b(%s)\s*\(" % "|".join(re.escape(c) for c in calls) if calls else r"(\b\B)x", r"\bif\s*\(", r"\bfor\s*\(",
+                r"\belse\b"] + ["(?P<st%d>%s)" % (i, x) for i, x in enumerate(stmts)]
+        pat = re.compile("|".join(alts))
         pos = 0
         while True:
             m = pat.search(body, pos)
@@ -59,6 +69,10 @@ def emit(repo, spec, H):
                 toks.append("else")
                 pos = m.end()
                 continue
+            if any(m.groupdict().get("st%d" % i) for i in range(len(stmts))):
+                toks.append(re.sub(r"\s+", "", m.group(0)))
+                pos = m.end()
+                continue
             lp = m.end() - 1
             rp = _scan_call(body, lp)
             inner = re.sub(r"\s+", "", body[lp:rp])
@@ -66,14 +80,42 @@ def emit(repo, spec, H):
                 toks.append(m.group(1) + inner)
                 pos = rp
             else:
+                kw = "for" if m.group(0).startswith("for") else "if"
                 if any(c in inner for c in conds):
-                    # a watched condition; calls inside the condition are listed after it
-                    toks.append("if" + inner)
+                    # a watched condition / loop header; calls inside it are listed after it
+                    toks.append(kw + inner)
                 pos = lp + 1
         # drop `else` tokens that do not follow a watched structure (keep it simple: keep all; the list is literal)
         items = "; ".join('"%s"' % t.replace('"', "'") for t in toks)
         out.append("(* %s: %s -- ordered skeleton of watched calls / conditions *)" % (f, fn))
         out.append("Definition %s_skel : list string :=\n  [%s]." % (fn, items))
+    for files, lv, name in spec.get("assign_census", []):
+        items = []
+        rx = re.compile(r"(?:\+\+|--)\s*\(?\s*%s\s*\)?|%s\s*(?:\+\+|--)|%s\s*(?:[-+*/|&^]|<<|>>)?=(?!=)[^;]*" % (lv, lv, lv))
+        for f in files:
+            txt = H.raw(repo, f)
+            # top-level function bodies
+            depth, i, start, fname = 0, 0, None, None
+            spans = []
+            while i < len(txt):
+                ch = txt[i]
+                if ch == "{":
+                    if depth == 0:
+                        head = txt[max(0, i - 600):i]
+                        mm = re.search(r"([A-Za-z_][A-Za-z0-9_]*)\s*\([^;{}]*\)\s*$", head)
+                        fname, start = (mm.group(1) if mm else "?"), i
+                    depth += 1
+                elif ch == "}":
+                    depth -= 1
+                    if depth == 0 and start is not None:
+                        spans.append((fname, start, i))
+                        start = None
+                i += 1
+            for fname, a, b in spans:
+                for m in rx.finditer(txt, a, b):
+                    items.append("%s: %s" % (fname, re.sub(r"\s+", "", m.group(0))))
+        out.append("(* every assignment to %s in %s *)" % (lv.replace("\\", ""), ", ".join(files)))
+        out.append("Definition %s : list string :=\n  [%s]." % (name, ";\n   ".join('"%s"' % t.replace('"', "'") for t in items)))
     if spec.get("skeletons"):
         out.append("Local Close Scope string_scope.")
     return out
